@@ -160,6 +160,12 @@ def respond (line : String) : String :=
     match atomNat? lim, parseNames names, parseSchema schema, parseValue value with
     | some lim, some env, some s, some v => if validate floatOps { lim := lim } env bigFuel s v then "ok" else "rej"
     | _, _, _, _ => "bad-request"
+  | [.atom "compat", w, r] =>
+    match parseSchema w, parseSchema r with
+    | some w, some r =>
+      let shw (c : Option Compat) : String := match c with | some .full => "full" | some .part => "partial" | none => "err"
+      s!"{shw (canRead bigFuel w r)} {shw (mutualRead bigFuel w r)}"
+    | _, _ => "bad-request"
   | [.atom "res", lim, names, schema, value] =>
     match atomNat? lim, parseNames names, parseSchema schema, parseValue value with
     | some lim, some env, some s, some v =>
